@@ -2,11 +2,15 @@ package sim
 
 import (
 	"context"
+	"crypto/sha256"
 	"errors"
 	"fmt"
 	"sort"
+	"strings"
 	"sync"
 	"time"
+
+	"verif/cbor"
 
 	"github.com/bronlabs/bron-crypto/pkg/mpc/sharing"
 )
@@ -34,7 +38,12 @@ func (k MsgKind) String() string {
 // Msg is one message in flight.
 type Msg struct {
 	From, To ID
-	Link     uint64 // per (from,to) sequence number, assigned in Send order on that link
+	// Stream is the correlation id found in the router envelope ("" if the bytes
+	// are not an envelope). Link numbers messages per (from, to, stream): two
+	// tasks of one party that send in the same scheduler step run in an order the
+	// Go scheduler chooses, so a per-link counter alone would not be reproducible.
+	Stream string
+	Link   uint64
 	Copy     int    // 0 = original; n>0 = n-th simulator-made copy
 	Kind     MsgKind
 	Bytes    []byte
@@ -47,7 +56,7 @@ type Msg struct {
 // Key is the canonical identity used for sorting, traces and replay. It does
 // not depend on the order in which Send calls of *different* links happened.
 func (m *Msg) Key() string {
-	return fmt.Sprintf("%d>%d#%d.%d", m.From, m.To, m.Link, m.Copy)
+	return fmt.Sprintf("%d>%d#%s|%d.%d", m.From, m.To, m.Stream, m.Link, m.Copy)
 }
 
 // Net is the only transport the system under test sees.
@@ -57,7 +66,7 @@ type Net struct {
 	order     []ID
 	pending   []*Msg
 	delivered []*Msg
-	link      map[[2]ID]uint64
+	link      map[string]uint64
 	step      int
 
 	// OnSend, when set, may rewrite, drop or multiply an outgoing message (wire
@@ -71,7 +80,7 @@ type Net struct {
 
 // NewNet creates a network among the given parties.
 func NewNet(ids []ID) *Net {
-	n := &Net{eps: map[ID]*Endpoint{}, link: map[[2]ID]uint64{}}
+	n := &Net{eps: map[ID]*Endpoint{}, link: map[string]uint64{}}
 	n.order = append(n.order, ids...)
 	sort.Slice(n.order, func(i, j int) bool { return n.order[i] < n.order[j] })
 	for _, id := range n.order {
@@ -113,10 +122,11 @@ func (e *Endpoint) Send(_ context.Context, to ID, message []byte) error {
 	n := e.net
 	n.mu.Lock()
 	defer n.mu.Unlock()
-	lk := [2]ID{e.id, to}
+	stream := envelopeStream(message)
+	lk := fmt.Sprintf("%d>%d#%s", e.id, to, stream)
 	seq := n.link[lk]
 	n.link[lk] = seq + 1
-	m := &Msg{From: e.id, To: to, Link: seq, Bytes: append([]byte(nil), message...), SentStep: n.step}
+	m := &Msg{From: e.id, To: to, Stream: stream, Link: seq, Bytes: append([]byte(nil), message...), SentStep: n.step}
 	n.SentMsgs++
 	n.SentBytes += int64(len(message))
 	out := []*Msg{m}
@@ -171,6 +181,9 @@ func lessMsg(a, b *Msg) bool {
 	}
 	if a.To != b.To {
 		return a.To < b.To
+	}
+	if a.Stream != b.Stream {
+		return a.Stream < b.Stream
 	}
 	if a.Link != b.Link {
 		return a.Link < b.Link
@@ -265,10 +278,27 @@ func (n *Net) NextCopy(m *Msg) int {
 	max := 0
 	for _, l := range [][]*Msg{n.pending, n.delivered} {
 		for _, p := range l {
-			if p.From == m.From && p.To == m.To && p.Link == m.Link && p.Copy > max {
+			if p.From == m.From && p.To == m.To && p.Stream == m.Stream && p.Link == m.Link && p.Copy > max {
 				max = p.Copy
 			}
 		}
 	}
 	return max + 1
+}
+
+// envelopeStream extracts the correlation id of a router envelope (a CBOR map
+// with the text key "correlationID"), or "" if the bytes are something else.
+func envelopeStream(b []byte) string {
+	tr, err := cbor.Parse(b)
+	if err != nil || tr.Major != 5 {
+		return ""
+	}
+	if l, ok := tr.Find(".correlationID"); ok && l.Node.Major == 3 {
+		s := string(l.Node.Bytes)
+		if strings.ContainsAny(s, " |") {
+			return fmt.Sprintf("h%x", sha256.Sum256(l.Node.Bytes))[:17]
+		}
+		return s
+	}
+	return ""
 }
